@@ -109,7 +109,7 @@ def do_run(argv: List[str]) -> int:
                 status = "CAUGHT" if c.returncode == 1 and viol else ("MISSED" if c.returncode == 0 else f"HARNESS({c.returncode})")
                 raw_hits = runs = None
                 try:
-                    with open(os.path.join(VERIF, "evidence", f"{prop}.json")) as fd:
+                    with open(os.path.join(VERIF, "scratch", "evidence", f"{prop}.json")) as fd:
                         ev = json.load(fd)
                     raw_hits = ev["coverage"]["counters"].get("violations_raw", 0)
                     runs = ev["coverage"]["evaluations"]
